@@ -39,7 +39,7 @@ def shard_setup(obs) -> None:
 
 
 def gen_cases(tier: str, seed: int):
-    n = {"quick": 60, "thorough": 700}[tier]
+    n = {"quick": 60, "thorough": 250}[tier]
     rng = np.random.default_rng([seed, 12])
     combos = []
     for k in zoo.SYSTEMS:
@@ -55,7 +55,7 @@ def gen_cases(tier: str, seed: int):
             ispec["n_inner_step"] = int(rng.integers(1, 3))
         yield {"spec": spec, "ispec": ispec, "transition": ["static", "multinomial", "slice", "random"][i % 4],
                "frac": float(rng.uniform(0.1, 0.5)), "forced": bool(i % 5 == 4), "seed": [seed, int(rng.integers(0, 2**31))],
-               "max_per_fn": {"quick": 5, "thorough": 40}[tier]}
+               "max_per_fn": {"quick": 5, "thorough": 30}[tier]}
 
 
 class Ctx:
